@@ -56,6 +56,7 @@ struct side {
     const unsigned char *inflight_buf;   /* bytestream: what the call in progress offers */
     int eof_seen, closed, term_errno, gave_up, had_eagain_send;
     int last_rc, last_errno;
+    int last_send_len, carried_on, own_write_failed;
     /* counter ledger */
     int64_t exp_from_app_msgs, exp_from_app_bytes, exp_to_app_msgs, exp_to_app_bytes;
     int64_t prev_cnt[8];
@@ -243,6 +244,10 @@ static void on_received(struct side *rx, const unsigned char *buf, int rc, int c
         V(strcmp(what, "failed-send-delivered") == 0 ? "C03" : "C01", sig,
           "%s obtained a message (%d bytes, first byte 0x%02x) as receive #%d but the peer had only %d accepted sends (%s)",
           rx->name, rc, rc > 0 ? buf[0] : 0, k + 1, tx->n_acc, what);
+        if (strcmp(what, "failed-send-delivered") == 0) {
+            snprintf(sig, sizeof sig, "C01/message-beyond-accepted-sends/tp=%s", g_tp);
+            V("C01", sig, "%s obtained %d message(s), the peer's xcm_send succeeded only %d time(s)", rx->name, k + 1, tx->n_acc);
+        }
         rx->exp_to_app_msgs++;
         rx->exp_to_app_bytes += rc;
         return;
@@ -363,6 +368,10 @@ static void terminal(struct side *x, const char *op, int err)
     int timed_out = env_now_ns() - g_t0 >= 3000000000LL;
     if (timed_out || p->gave_up || p->closed)
         return;
+    /* tf=1: the environment answered one send(2) with ENOBUFS/ENOMEM; a connection that ends with that errno (or,
+       under TLS, with whatever OpenSSL makes of a failed write) is the environment's doing */
+    if (env_transient_faults() > 0)
+        return;
     char sig[160];
     if (x->n_refused > 0 || x->had_eagain_send) {
         /* C03: after a send refused with EAGAIN the connection must remain fully usable */
@@ -413,6 +422,7 @@ static int do_send(struct side *x, struct op *o)
         mc_sched_point("send");
         x->inflight = m;
         x->inflight_len = o->len - sent_total;
+        x->last_send_len = o->len;
         x->inflight_buf = buf + sent_total;
         int64_t before[8];
         int have_before = x->cnt_valid;
@@ -648,6 +658,7 @@ static int run_loop_style(struct side *x)
             mc_sched_point("send");
             x->inflight = o->m;
             x->inflight_len = o->len;
+            x->last_send_len = o->len;
             int rc = API("xcm_send", 1, xcm_send(x->s, buf, o->len));
             int err = rc < 0 ? errno : 0;
             mc_observe("%s send m%d len=%d -> %d %s", x->name, o->m, o->len, rc, rc < 0 ? errname(err) : "");
@@ -669,8 +680,45 @@ static int run_loop_style(struct side *x)
 }
 
 /* what an application does when its connection is gone: close the socket */
+/* an application that does not take a failed xcm_send for the end of the connection: it flushes, offers the same
+   message once more, flushes again - and only then closes.  Run after the environment refused one send(2) with
+   ENOBUFS/ENOMEM (tf=1).  Whatever the library makes of that errno, a message whose xcm_send returned -1 must not
+   reach the peer (C03) and the peer's sequence must remain the sequence of successful sends (C01): the oracle is
+   on_received()/on_send_result() as always. */
+static void carry_on_after_failed_send(struct side *x)
+{
+    if (g_bytestream || x->carried_on || !x->s || x->closed || x->n_failed == 0 || env_transient_faults() == 0 ||
+        !(x->term_errno == ENOBUFS || x->term_errno == ENOMEM))
+        return;
+    x->carried_on = 1;
+    int m = x->failed[x->n_failed - 1], len = x->last_send_len;
+    unsigned char *buf = g_buf[x->idx];
+    mc_sched_point("finish");
+    int rc = API("xcm_finish", !x->blocking, xcm_finish(x->s));
+    mc_observe("%s carries on: finish -> %d %s", x->name, rc, rc < 0 ? errname(errno) : "");
+    pay_fill(buf, m, len);
+    mc_sched_point("send");
+    x->inflight = m;
+    x->inflight_len = len;
+    x->inflight_buf = buf;
+    rc = API("xcm_send", !x->blocking, xcm_send(x->s, buf, len));
+    int err = rc < 0 ? errno : 0;
+    mc_observe("%s carries on: re-send m%d len=%d -> %d %s", x->name, m, len, rc, rc < 0 ? errname(err) : "");
+    on_send_result(x, m, len, rc, err);
+    for (int i = 0; i < 3; i++) {
+        mc_sched_point("finish");
+        rc = API("xcm_finish", !x->blocking, xcm_finish(x->s));
+        mc_observe("%s carries on: finish -> %d %s", x->name, rc, rc < 0 ? errname(errno) : "");
+        if (!(rc < 0 && errno == EAGAIN) || x->blocking)
+            break;
+        if (cond_wait(x, 0, "carry-on-finish") < 0)
+            break;
+    }
+}
+
 static void give_up(struct side *x)
 {
+    carry_on_after_failed_send(x);
     if (x->s && !x->closed) {
         if (!x->term_errno && !x->eof_seen)
             x->term_errno = EIO;
@@ -699,6 +747,10 @@ static void run_script(struct side *x)
             if (rc < 0 && o->try_only) {
                 mc_observe("%s goes on after the failed send (errno=%s)", x->name, errname(x->term_errno));
                 rc = 0;
+                /* the failed write says nothing about what the peer had sent before it closed: the completeness
+                   oracle at end-of-stream (final_checks) stays armed unless a RECEIVE fails */
+                x->term_errno = 0;
+                x->own_write_failed = 1;
             }
             if (rc == 0 && g_fin_each)
                 rc = do_finish(x);
@@ -1081,18 +1133,18 @@ static void final_checks(enum mc_end end)
                 rx_wants_all = 1;
         if (g_bytestream) {
             if (rx_wants_all && rx->eof_seen && rx->bytes_rcv != tx->bytes_sent_acc && !tx->term_errno && !rx->term_errno) {
-                snprintf(sig, sizeof sig, "C02/stream-incomplete-at-eof/tp=%s", g_tp);
+                snprintf(sig, sizeof sig, "C02/stream-incomplete-at-eof%s/tp=%s", rx->own_write_failed ? "/after-own-write-failed" : "", g_tp);
                 V("C02", sig, "%s flushed and closed gracefully after %lld accepted bytes, %s saw EOF after %lld",
                   tx->name, (long long)tx->bytes_sent_acc, rx->name, (long long)rx->bytes_rcv);
             }
             continue;
         }
         if (rx_wants_all && rx->eof_seen && rx->n_rcv != tx->n_acc && !tx->term_errno && !rx->term_errno) {
-            snprintf(sig, sizeof sig, "C01/messages-missing-at-eof/tp=%s", g_tp);
+            snprintf(sig, sizeof sig, "C01/messages-missing-at-eof%s/tp=%s", rx->own_write_failed ? "/after-own-write-failed" : "", g_tp);
             V("C01", sig, "%s had %d sends accepted, flushed and closed; %s obtained %d before EOF", tx->name,
               tx->n_acc, rx->name, rx->n_rcv);
             /* C03: a successful send is delivered exactly once when the sender lets the socket finish its work */
-            snprintf(sig, sizeof sig, "C03/accepted-send-never-delivered/tp=%s", g_tp);
+            snprintf(sig, sizeof sig, "C03/accepted-send-never-delivered%s/tp=%s", rx->own_write_failed ? "/after-own-write-failed" : "", g_tp);
             V("C03", sig, "%s: %d sends returned success and the socket was allowed to finish (xcm_finish 0 / blocking send "
               "returned) before the close; %s obtained only %d before EOF", tx->name, tx->n_acc, rx->name, rx->n_rcv);
         }
@@ -1183,7 +1235,9 @@ static void scenario(const char *params)
                            .sleep_monitor = 1, .only_task = -1,
                            /* bp=1: back-pressure with flow-control semantics (loop style only: both ends keep
                               reading while they wait to write, so a correct library cannot deadlock) */
-                           .stall_until_read = (int)param_int(params, "bp", 0) };
+                           .stall_until_read = (int)param_int(params, "bp", 0),
+                           /* tf=1: one send(2) may be answered ENOBUFS/ENOMEM with the connection unaffected */
+                           .fault_transient = (int)param_int(params, "tf", 0) };
     if (cfg.stall_until_read && (strcmp(g_style, "loop") || A.blocking || B.blocking))
         mc_fail("internal/bp-needs-loop-style", "bp=1 is only sound with style=loop on two non-blocking endpoints");
     env_init(&cfg);
